@@ -55,8 +55,15 @@ theorem foldF_map (m : Nat) (reg : Bool) (k e : GoType) (ms : List (GoVal × GoV
       if !isStringKind k then .error .nonStringKey else
       (ms.mapM (entryF m reg e)).map fun mems => .obj [(true, mems)] := by
   rw [← entryF_eq]; rfl
-theorem foldF_ptr_nil (m : Nat) (reg : Bool) (e : GoType) : foldF (m + 1) reg (.ptr e) .nilPtr = .ok .null := by
+theorem foldF_ptr_nil_eq (m : Nat) (reg : Bool) (e : GoType) :
+    foldF (m + 1) reg (.ptr e) .nilPtr =
+      (match customOf reg e with
+       | some (n, true) => customNil n
+       | _ => .ok .null) := by
   rfl
+theorem foldF_ptr_nil (m : Nat) (reg : Bool) (e : GoType) (h : customOf reg e = none) :
+    foldF (m + 1) reg (.ptr e) .nilPtr = .ok .null := by
+  rw [foldF_ptr_nil_eq, h]
 theorem foldF_ptr (m : Nat) (reg : Bool) (e : GoType) (x : GoVal) :
     foldF (m + 1) reg (.ptr e) (.ptr x) = foldF m reg e x := by
   rfl
